@@ -280,12 +280,13 @@ def check_json(dj, v, indent, ea, res, fam, desc, load=None):
     if indent is None and ws_outside_strings(text):
         res.violation('C07:whitespace:%s' % fam, 'dumps_json(%s, %s) = %r has white space outside strings' % (show(v), opts, text), pay)
     if not ea:
-        for s in all_strings(v, []):
-            for c in s:
-                if ord(c) > 0x7f and c not in text:
-                    res.violation('C07:escaped-with-ensure_ascii-off:%s' % fam, 'dumps_json(%s, %s) = %r escapes %r' % (
-                        show(v), opts, text, c), pay)
-                    break
+        # every occurrence of a non-ASCII character (in values AND in keys) must be in the text unescaped
+        want_c = collections.Counter(c for s in all_strings(v, []) for c in s if ord(c) > 0x7f)
+        for c, n in want_c.items():
+            if text.count(c) < n:
+                res.violation('C07:escaped-with-ensure_ascii-off:%s' % fam, 'dumps_json(%s, %s) = %r escapes %r (%d of %d occurrences literal)' % (
+                    show(v), opts, text, c, text.count(c), n), pay)
+                break
     if load is not None and not has_dates(v) and all(printable_bmp(s) for s in all_strings(v, [])):
         o = load.impl(text)
         if not (o[0] == 'ok' and eqv(o[1], v)):
